@@ -624,10 +624,10 @@ impl Process for JsonProcess {
 //@@ rewrite underscore_param
 //@@ endfn
 //@@ fn jsonprocess.complete = src/output_style.rs :: impl Process for JsonProcess :: fn complete
-//@@ safety C02 C03 C16 C20
+//@@ safety C02 C03 C16 C20 C06
 //@@ endfn
 //@@ fn jsonprocess.process = src/output_style.rs :: impl Process for JsonProcess :: fn process
-//@@ safety C02 C03 C16 C20
+//@@ safety C02 C03 C16 C20 C06
 //@@ rewrite write_macros
 //@@ before "Ok(ProcessDesision::Continue)"
         proof {
@@ -775,7 +775,7 @@ pub open spec fn list_row(p: TextPrinter, n: int, sep: Seq<char>, list: Seq<Opti
 
 impl TextProcess {
 //@@ fn textprocess.print_list = src/output_style.rs :: impl TextProcess :: fn print_list
-//@@ safety C15 C16 C05 C20
+//@@ safety C15 C16 C05 C20 C06
 //@@ ret r
 //@@ rewrite write_macros enumerate
 //@@ header
@@ -820,7 +820,7 @@ impl Process for TextProcess {
     }
 
 //@@ fn textprocess.complete = src/output_style.rs :: impl Process for TextProcess :: fn complete
-//@@ safety C15 C03 C16 C20
+//@@ safety C15 C03 C16 C20 C06
 //@@ endfn
 //@@ fn textprocess.start = src/output_style.rs :: impl Process for TextProcess :: fn start
 //@@ safety C15 C18 C03 C16 C20
@@ -835,7 +835,7 @@ impl Process for TextProcess {
             r is Ok ==> final(self).length == titles_so_far.names().len(),
 //@@ endfn
 //@@ fn textprocess.process = src/output_style.rs :: impl Process for TextProcess :: fn process
-//@@ safety C15 C16 C03 C20
+//@@ safety C15 C16 C03 C20 C06
 //@@ rewrite write_macros
 //@@ body-start
         let ghost l0 = self.writer.log();
